@@ -310,3 +310,91 @@ Proof.
   assert (H0 : OnceI (e0, w0)). { intros _. cbn [fst snd e0 e_plog e_queue w0 w_pc]. split; [constructor|split; [intros t []|intros t H; discriminate]]. }
   destruct (Once_run_from iv sched (e0, w0) InvQ_init H0 Hk) as (A & _). exact A.
 Qed.
+
+(* ================= the stop flag as input state; stop at any time ================= *)
+Lemma run_from_app iv a b x : run_from iv x (a ++ b) = run_from iv (run_from iv x a) b.
+Proof. unfold run_from. apply fold_left_app. Qed.
+
+(* nobody clears the flag: neither a worker step nor any foreground call *)
+Theorem stop_sticky iv sched x : e_stop (fst x) = true -> e_stop (fst (run_from iv x sched)) = true.
+Proof. intros Hs. destruct (stop_bound iv sched x Hs) as (A & _). exact A. Qed.
+
+Lemma InvS_init b : InvS (fst (init b)).
+Proof. split; [apply K_store0|]. intros _. apply J_store0. Qed.
+
+Theorem frame_table_any_entry_flag iv b sched :
+  let e := fst (run_pre iv b sched) in
+  run_ok [] (e_hist e) = true ->
+  view (e_st e) = ref_run [] (e_hist e) /\ (pending (e_st e) = [] -> committed (e_st e) = ref_run [] (e_hist e)).
+Proof.
+  intros e Hok. destruct (InvS_run_from iv sched (init b) (InvS_init b)) as [HK HJ]. fold (run_pre iv b sched) in HJ. fold e in HJ.
+  pose proof (J_view _ _ (HJ Hok)) as HV. split; [exact HV|].
+  intros Hp. rewrite <- (quiescent_committed _ Hp). exact HV.
+Qed.
+
+(* a worker that is not in the middle of an iteration leaves the loop at its very next step *)
+Theorem idle_worker_exits_on_next_step iv sched x :
+  e_stop (fst x) = true -> w_pc (snd x) = WTop -> (1 <= countW sched)%nat ->
+  w_pc (snd (run_from iv x sched)) = WStopped /\ w_nproc (snd (run_from iv x sched)) <= w_nproc (snd x).
+Proof.
+  intros Hs Hp Hc. destruct (stop_bound iv sched x Hs) as (_ & B & C). rewrite Hp in B, C. cbn [rank owed] in B, C. split.
+  - destruct (w_pc (snd (run_from iv x sched))); cbn [rank] in B; try lia. reflexivity.
+  - pose proof (N.le_0_l (owed (w_pc (snd (run_from iv x sched))))). lia.
+Qed.
+
+(* stop requested BEFORE the loop is entered: whatever the foreground does, however many steps the
+   worker is given, it never processes a frame, never logs a process call, never changes a frame's
+   state, and its first step is the exit *)
+Lemma prestopped_inv iv sched : forall x,
+  e_stop (fst x) = true -> (w_pc (snd x) = WTop /\ w_since (snd x) = 0 \/ w_pc (snd x) = WStopped) ->
+  let x1 := run_from iv x sched in
+  (w_pc (snd x1) = WTop /\ w_since (snd x1) = 0 /\ countW sched = O \/ w_pc (snd x1) = WStopped) /\
+  w_nproc (snd x1) = w_nproc (snd x) /\ w_nerr (snd x1) = w_nerr (snd x).
+Proof.
+  induction sched as [|i sched IH]; intros [e w] Hs Hp; cbn [run_from fold_left countW fst snd].
+  - split; [destruct Hp as [[A B]|A]; [left; auto|right; exact A]|split; reflexivity].
+  - fold (run_from iv (step iv (e, w) i) sched). cbn [fst snd] in *. destruct i as [extra|f]; cbn [step].
+    + assert (H1 : e_stop (fst (wstep iv extra (e, w))) = true /\ w_pc (snd (wstep iv extra (e, w))) = WStopped /\
+                   w_nproc (snd (wstep iv extra (e, w))) = w_nproc w /\ w_nerr (snd (wstep iv extra (e, w))) = w_nerr w).
+      { unfold wstep. destruct Hp as [[A B]|A]; rewrite A.
+        - rewrite Hs, B. cbn [fst snd set_pc w_pc w_nproc w_nerr]. change (0 <? 0) with false. cbn [fst]. auto.
+        - cbn [fst snd]. auto. }
+      destruct H1 as (S1 & P1 & N1 & E1).
+      destruct (IH _ S1 (or_intror P1)) as (A & B & C). split; [|split; congruence].
+      right. destruct (stop_bound iv sched _ S1) as (_ & R & _). rewrite P1 in R. cbn [rank] in R.
+      destruct (w_pc (snd (run_from iv (wstep iv extra (e, w)) sched))); cbn [rank] in R; try lia. reflexivity.
+    + destruct (fstep_stop f e w Hs) as (S1 & W1).
+      assert (Hp1 : w_pc (snd (fstep f (e, w))) = WTop /\ w_since (snd (fstep f (e, w))) = 0 \/ w_pc (snd (fstep f (e, w))) = WStopped) by (rewrite W1; exact Hp).
+      destruct (IH _ S1 Hp1) as (A & B & C). rewrite W1 in B, C. split; [exact A|split; assumption].
+Qed.
+
+Theorem prestopped_never_works iv sched :
+  let x := run_pre iv true sched in
+  w_nproc (snd x) = 0 /\ w_nerr (snd x) = 0 /\ ((1 <= countW sched)%nat -> w_pc (snd x) = WStopped).
+Proof.
+  intros x. destruct (prestopped_inv iv sched (init true) eq_refl (or_introl (conj eq_refl eq_refl))) as (A & B & C).
+  fold (run_pre iv true sched) in A, B, C. fold x in A, B, C. split; [exact B|split; [exact C|]].
+  intros Hc. destruct A as [(_ & _ & Z)|A]; [lia|exact A].
+Qed.
+
+(* stop requested at ANY position of ANY schedule, from either entry flag: *)
+Theorem stop_at_any_time iv b pre post :
+  let x := run_pre iv b pre in
+  let y := run_pre iv b (pre ++ SF FStop :: post) in
+  e_stop (fst y) = true /\
+  ((4 <= countW post)%nat -> w_pc (snd y) = WStopped) /\
+  w_nproc (snd y) <= w_nproc (snd x) + owed (w_pc (snd x)) /\
+  (w_pc (snd x) = WTop -> (1 <= countW post)%nat -> w_pc (snd y) = WStopped /\ w_nproc (snd y) <= w_nproc (snd x)).
+Proof.
+  intros x y. unfold y, run_pre. rewrite run_from_app. fold (run_pre iv b pre). fold x.
+  change (run_from iv x (SF FStop :: post)) with (run_from iv (fstep FStop x) post).
+  assert (Hs : e_stop (fst (fstep FStop x)) = true) by (destruct x as [e w]; reflexivity).
+  assert (Hw : snd (fstep FStop x) = snd x) by (destruct x as [e w]; reflexivity).
+  destruct (stop_bound iv post _ Hs) as (A & B & C). rewrite Hw in B, C.
+  split; [exact A|]. split; [|split].
+  - intros Hc. pose proof (rank_le_4 (w_pc (snd x))).
+    destruct (w_pc (snd (run_from iv (fstep FStop x) post))); cbn [rank] in B; try lia. reflexivity.
+  - pose proof (N.le_0_l (owed (w_pc (snd (run_from iv (fstep FStop x) post))))). lia.
+  - intros Hp Hc. destruct (idle_worker_exits_on_next_step iv post _ Hs (eq_trans (f_equal w_pc Hw) Hp) Hc) as [P Q].
+    rewrite Hw in Q. split; assumption.
+Qed.
